@@ -291,7 +291,8 @@ def check(prog: Program, tier: str) -> Result:
     _whole_statement_deletes(prog, res)
     _r16_14(prog, res)
     _r16_15(prog, res)
-    res.floors.update({"R16.1": 60, "R16.2": 25, "R16.3": 10, "R16.4": 2, "R16.5": 1, "R16.6": 3, "R16.7": 8, "R16.8": 5, "R16.9": 2, "R16.10": 4, "R16.11": 1, "R16.12": 1, "R16.13": 1, "R16.15": 2})
+    _r16_16(prog, res)
+    res.floors.update({"R16.1": 60, "R16.2": 25, "R16.3": 10, "R16.4": 2, "R16.5": 1, "R16.6": 3, "R16.7": 8, "R16.8": 5, "R16.9": 2, "R16.10": 4, "R16.11": 1, "R16.12": 1, "R16.13": 1, "R16.15": 2, "R16.16": 3})
     res.analysed.update({"ast_kinds": len(kinds)})
     return res
 
@@ -690,6 +691,13 @@ def _delegates_exception_only(prog: Program, fn: Func, r: ast.Return) -> bool:
         t = norm(p.test)
         if "_is_exception(" in t or "blocking_types" in t:
             return True
+        # isinstance(node, X) with X a local bound only to tuples of the jump statement classes (whatever it is called)
+        c = p.test
+        if isinstance(c, ast.Call) and isinstance(c.func, ast.Name) and c.func.id == "isinstance" and len(c.args) == 2 and isinstance(c.args[1], ast.Name):
+            from ..defuse import bindings
+            defs = [v for _s, v in bindings(fn).get(c.args[1].id, []) if v is not None]
+            if defs and all(isinstance(v, ast.Tuple) and v.elts and all(norm(e) in ("ast.Return", "ast.Continue", "ast.Break", "ast.Raise") for e in v.elts) for v in defs):
+                return True
     return False
 
 
@@ -808,6 +816,73 @@ def _safe_callables(prog: Program, res: Result) -> None:
             if isinstance(n.targets[0], ast.Name) and "SAFE_CALLABLES" in norm(v)]
     res.decide(bool(init), "R16.6", fn.loc(), fn.fq, "initial value of the inferred set",
                f"starts from {norm(init[0])}" if init else "does not start from constants.SAFE_CALLABLES")
+
+
+def _r16_16(prog: Program, res: Result) -> None:
+    """Whose break is it?  A loop that is certainly entered is 'blocking' (nothing after it runs) only if nothing inside can leave
+    it normally.  A `break` of THIS loop can stand at any depth of if / try / with / match - and in the ELSE clause of an inner
+    loop, which is not part of that loop's own break scope; the breaks in an inner loop's body are its own.  In a `for` loop a
+    `continue` of this loop skips the returning statement behind it, so the loop can run to its end.  Obligations on
+    is_blocking: (a) every answer True for the kinds For / While is reached only under the negative outcome of ONE search over
+    the loop's body made by a recursive repository helper; (b) that helper descends into body / orelse / finalbody / handlers,
+    takes only the `orelse` of an inner loop, and does not enter function or class definitions; (c) for a `for` loop the
+    searched kinds include ast.Continue."""
+    from ..pathcond import plain, entails
+    fn = prog.func("core", "is_blocking")
+    node = fn.posparams[0]
+    searches = []
+    for c in prog.calls_in(fn):
+        r = prog.resolve_call(c.func, fn.mod, fn)
+        if r and r[0] == "fn" and r[1].key != fn.key and c.args and norm(c.args[0]) == f"{node}.body":
+            h = r[1]
+            if any((prog.resolve_call(x.func, h.mod, h) or (None, None))[1] is h for x in prog.calls_in(h)):      # recursive
+                searches.append((c, h))
+    if not searches:
+        res.bad("R16.16", fn.loc(), fn.fq, "search for the break / continue statements of a loop",
+                "is_blocking has no ownership-aware search over the body of a loop: breaks in the else clause of an inner loop, `continue` inside try in a for loop, "
+                "or a dead return behind a break are misjudged and the code after the loop is deleted")
+        return
+    call, helper = searches[0]
+    txt = norm(helper.node)
+    descends = all(f in txt for f in ("'body'", "'orelse'", "'finalbody'")) and "handlers" in txt or all(f".{f}" in txt for f in ("body", "orelse", "finalbody", "handlers"))
+    inner_loops = None
+    for i in walk_own(helper.node):
+        if isinstance(i, ast.If) and "isinstance(" in norm(i.test) and "ast.For" in norm(i.test) and "ast.While" in norm(i.test):
+            body_txt = " ".join(norm(x) for x in i.body)
+            inner_loops = ".orelse" in body_txt and ".body" not in body_txt
+    skips_defs = any(isinstance(i, ast.If) and "FunctionDef" in norm(i.test) and i.body and isinstance(i.body[-1], ast.Continue) for i in walk_own(helper.node))
+    ok_b = bool(descends and inner_loops and skips_defs)
+    res.decide(ok_b, "R16.16", helper.loc(), helper.fq, f"{helper.name} # which statements can hold a jump of this loop",
+               "descends into every block kind, takes only the else clause of an inner loop, skips definitions" if ok_b else
+               f"the search (descends: {bool(descends)}, inner loops by their else clause only: {inner_loops}, definitions skipped: {skips_defs}) misattributes break / continue statements")
+    # (c) the kinds searched for a for loop include Continue
+    kinds = call.args[1] if len(call.args) > 1 else None
+    ktxt = norm(kinds) if kinds is not None else ""
+    if isinstance(kinds, ast.Name):
+        from ..defuse import bindings
+        ktxt += " " + " ".join(norm(v) for _s, v in bindings(fn).get(kinds.id, []) if v is not None)
+    ok_c = "ast.Break" in ktxt and "ast.Continue" in ktxt and "ast.For" in ktxt
+    res.decide(ok_c, "R16.16", fn.loc(call), fn.fq, f"{short(call, 50)} # kinds searched",
+               "break for every loop, continue as well for a for loop" if ok_c else
+               "a `continue` of a for loop is not searched for: `for x in [1, 2]: try: continue finally: pass; return` is called blocking")
+    # (a) dominance
+    pa = PathAnalysis(prog, fn, max_worlds=2048)
+    n = 0
+    for r in walk_own(fn.node):
+        if not isinstance(r, ast.Return) or r.value is None or (isinstance(r.value, ast.Constant) and r.value.value is False):
+            continue
+        if _delegates_exception_only(prog, fn, r):
+            continue         # the generic prologue (exceptions, return / break / continue themselves)
+        worlds = [w for w in pa.worlds_at(r) if _feasible_for(prog, fn, w, ast.For, node) or _feasible_for(prog, fn, w, ast.While, node)]
+        if not worlds:
+            continue
+        n += 1
+        ok = all(entails(w.facts, pa.formula(call, w, False)) for w in worlds)
+        res.decide(ok, "R16.16", fn.loc(r), fn.fq, f"loop: {short(r, 50)}",
+                   "answered only after the search found no jump of this loop" if ok else
+                   "a loop can be answered 'blocking' on a path that never asked whether a break / continue of this loop exists")
+    if n == 0:
+        res.undecided("R16.16", fn.loc(), fn.fq, "answers for loops", "no return for the loop kinds found")
 
 
 def _r16_15(prog: Program, res: Result) -> None:
@@ -1060,6 +1135,9 @@ def _positive(test: ast.AST) -> bool:
 from ..selftest import Variant  # noqa: E402
 
 VARIANTS: List[Variant] = [
+    Variant("jump-search-enters-inner-loop-bodies", "FIRE", "core", "            blocks = [node.orelse]\n", "            blocks = [node.body, node.orelse]\n", "R16.16"),
+    Variant("continue-of-a-for-loop-not-searched", "FIRE", "core", "        leaving = (ast.Break, ast.Continue) if isinstance(node, ast.For) else (ast.Break,)", "        leaving = (ast.Break,)", "R16.16"),
+    Variant("jump-search-dropped", "FIRE", "core", "        if _has_jump_of_this_loop(node.body, leaving):\n            return False\n", "        pass\n", "R16.16"),
     Variant("called-result-judged-by-factory-name", "FIRE", "core",
             "        if any(isinstance(child, ast.Call) for child in ast.walk(node.func)):\n            return True\n\n", "", "R16.15"),
     Variant("callee-form-tested-by-isinstance", "SILENT", "core",
